@@ -1201,6 +1201,13 @@ impl Vault {
         self.check_access_with_permission(requester, key, Permission::Read)
     }
 
+    /// Graph keys of secret nodes (`vault_secret:<obfuscated name>`) are not identities.
+    /// A caller presenting one as its identity must not pick up the `source == target`
+    /// shortcut of the path search, which answers Admin without looking at any grant.
+    fn is_secret_node_key(requester: &str) -> bool {
+        requester.starts_with("vault_secret:")
+    }
+
     fn check_access_with_permission(
         &self,
         requester: &str,
@@ -1209,6 +1216,11 @@ impl Vault {
     ) -> Result<()> {
         if requester == Self::ROOT {
             return Ok(());
+        }
+        if Self::is_secret_node_key(requester) {
+            return Err(VaultError::AccessDenied(format!(
+                "'{requester}' is a secret node key, not an identity"
+            )));
         }
 
         // Expired TTL grants must never authorise anything: drop them before
@@ -1241,6 +1253,9 @@ impl Vault {
         if requester == Self::ROOT {
             return true;
         }
+        if Self::is_secret_node_key(requester) {
+            return false;
+        }
         self.cleanup_expired_grants();
 
         let secret_node = self.secret_node_key(key);
@@ -1272,6 +1287,9 @@ impl Vault {
     pub fn get_permission(&self, requester: &str, key: &str) -> Option<Permission> {
         if requester == Self::ROOT {
             return Some(Permission::Admin);
+        }
+        if Self::is_secret_node_key(requester) {
+            return None;
         }
         self.cleanup_expired_grants();
 
